@@ -80,22 +80,7 @@ broadcast use {
 //@item broker/src/broker/conn_state.rs struct ConnectionState
 
 impl ConnectionState {
-    spec fn ev(&self, c: ServiceCookie) -> Set<u32> {
-        if self.events@.contains_key(c) { self.events@[c]@ } else { Set::empty() }
-    }
-
-    // no service cookie is mapped to an empty event set (so event_subscriptions() enumerates exactly the live ones)
-    spec fn inv(&self) -> bool {
-        forall|c: ServiceCookie| #![auto] self.events@.contains_key(c) ==> self.events@[c]@.len() > 0
-    }
-
-    // everything except the named field is unchanged
-    spec fn same_but_events(&self, o: &Self) -> bool {
-        &&& self.version == o.version &&& self.send == o.send &&& self.objects == o.objects
-        &&& self.all_events == o.all_events &&& self.subscriptions == o.subscriptions
-        &&& self.senders == o.senders &&& self.receivers == o.receivers
-        &&& self.bus_listeners == o.bus_listeners &&& self.calls == o.calls
-    }
+    //@include _shared/conn_state_specs.rs
 
     //@fn broker/src/broker/conn_state.rs ConnectionState::new
         ensures
@@ -118,20 +103,15 @@ impl ConnectionState {
         requires !old(self).objects@.contains(cookie),
         ensures final(self).objects@ == old(self).objects@.insert(cookie),
             final(self).events == old(self).events, final(self).same_but_objects(old(self)),
+            final(self).rest_eq(old(self), 2),
     //@end
 
     //@fn broker/src/broker/conn_state.rs ConnectionState::remove_object
         requires old(self).objects@.contains(cookie),
         ensures final(self).objects@ == old(self).objects@.remove(cookie),
             final(self).events == old(self).events, final(self).same_but_objects(old(self)),
+            final(self).rest_eq(old(self), 2),
     //@end
-
-    spec fn same_but_objects(&self, o: &Self) -> bool {
-        &&& self.version == o.version &&& self.send == o.send
-        &&& self.all_events == o.all_events &&& self.subscriptions == o.subscriptions
-        &&& self.senders == o.senders &&& self.receivers == o.receivers
-        &&& self.bus_listeners == o.bus_listeners &&& self.calls == o.calls
-    }
 
     //@fn broker/src/broker/conn_state.rs ConnectionState::subscribe_event
         requires old(self).inv(),
@@ -140,6 +120,7 @@ impl ConnectionState {
             final(self).ev(svc_cookie) == old(self).ev(svc_cookie).insert(event),
             forall|c: ServiceCookie| c != svc_cookie ==> final(self).ev(c) == old(self).ev(c),
             final(self).same_but_events(old(self)),
+            final(self).rest_eq(old(self), 3),
     //@end
 
     //@fn broker/src/broker/conn_state.rs ConnectionState::unsubscribe_event
@@ -149,6 +130,7 @@ impl ConnectionState {
             final(self).ev(svc_cookie) == old(self).ev(svc_cookie).remove(event),
             forall|c: ServiceCookie| c != svc_cookie ==> final(self).ev(c) == old(self).ev(c),
             final(self).same_but_events(old(self)),
+            final(self).rest_eq(old(self), 3),
     //@end
 
     //@fn broker/src/broker/conn_state.rs ConnectionState::subscribe_all_events
@@ -158,6 +140,7 @@ impl ConnectionState {
             final(self).subscriptions == old(self).subscriptions, final(self).objects == old(self).objects,
             final(self).senders == old(self).senders, final(self).receivers == old(self).receivers,
             final(self).bus_listeners == old(self).bus_listeners, final(self).calls == old(self).calls,
+            final(self).rest_eq(old(self), 4),
     //@end
 
     //@fn broker/src/broker/conn_state.rs ConnectionState::unsubscribe_all_events
@@ -167,6 +150,7 @@ impl ConnectionState {
             final(self).subscriptions == old(self).subscriptions, final(self).objects == old(self).objects,
             final(self).senders == old(self).senders, final(self).receivers == old(self).receivers,
             final(self).bus_listeners == old(self).bus_listeners, final(self).calls == old(self).calls,
+            final(self).rest_eq(old(self), 4),
     //@end
 
     //@fn broker/src/broker/conn_state.rs ConnectionState::subscribe
@@ -176,6 +160,7 @@ impl ConnectionState {
             final(self).objects == old(self).objects,
             final(self).senders == old(self).senders, final(self).receivers == old(self).receivers,
             final(self).bus_listeners == old(self).bus_listeners, final(self).calls == old(self).calls,
+            final(self).rest_eq(old(self), 5),
     //@end
 
     //@fn broker/src/broker/conn_state.rs ConnectionState::unsubscribe
@@ -185,6 +170,7 @@ impl ConnectionState {
             final(self).objects == old(self).objects,
             final(self).senders == old(self).senders, final(self).receivers == old(self).receivers,
             final(self).bus_listeners == old(self).bus_listeners, final(self).calls == old(self).calls,
+            final(self).rest_eq(old(self), 5),
     //@end
 
     //@fn broker/src/broker/conn_state.rs ConnectionState::unsubscribe_all
@@ -199,6 +185,7 @@ impl ConnectionState {
             final(self).objects == old(self).objects,
             final(self).senders == old(self).senders, final(self).receivers == old(self).receivers,
             final(self).bus_listeners == old(self).bus_listeners, final(self).calls == old(self).calls,
+            final(self).rest_eq2(old(self), 3, 5),
     //@end
 
     //@fn broker/src/broker/conn_state.rs ConnectionState::add_sender
@@ -207,6 +194,7 @@ impl ConnectionState {
             final(self).receivers == old(self).receivers, final(self).objects == old(self).objects,
             final(self).events == old(self).events, final(self).calls == old(self).calls,
             final(self).bus_listeners == old(self).bus_listeners,
+            final(self).rest_eq(old(self), 6),
     //@end
 
     //@fn broker/src/broker/conn_state.rs ConnectionState::remove_sender
@@ -215,6 +203,7 @@ impl ConnectionState {
             final(self).receivers == old(self).receivers, final(self).objects == old(self).objects,
             final(self).events == old(self).events, final(self).calls == old(self).calls,
             final(self).bus_listeners == old(self).bus_listeners,
+            final(self).rest_eq(old(self), 6),
     //@end
 
     //@fn broker/src/broker/conn_state.rs ConnectionState::add_receiver
@@ -223,6 +212,7 @@ impl ConnectionState {
             final(self).senders == old(self).senders, final(self).objects == old(self).objects,
             final(self).events == old(self).events, final(self).calls == old(self).calls,
             final(self).bus_listeners == old(self).bus_listeners,
+            final(self).rest_eq(old(self), 7),
     //@end
 
     //@fn broker/src/broker/conn_state.rs ConnectionState::remove_receiver
@@ -231,6 +221,7 @@ impl ConnectionState {
             final(self).senders == old(self).senders, final(self).objects == old(self).objects,
             final(self).events == old(self).events, final(self).calls == old(self).calls,
             final(self).bus_listeners == old(self).bus_listeners,
+            final(self).rest_eq(old(self), 7),
     //@end
 
     //@fn broker/src/broker/conn_state.rs ConnectionState::add_bus_listener
@@ -239,6 +230,7 @@ impl ConnectionState {
             final(self).senders == old(self).senders, final(self).receivers == old(self).receivers,
             final(self).objects == old(self).objects, final(self).events == old(self).events,
             final(self).calls == old(self).calls,
+            final(self).rest_eq(old(self), 8),
     //@end
 
     //@fn broker/src/broker/conn_state.rs ConnectionState::remove_bus_listener
@@ -247,6 +239,7 @@ impl ConnectionState {
             final(self).senders == old(self).senders, final(self).receivers == old(self).receivers,
             final(self).objects == old(self).objects, final(self).events == old(self).events,
             final(self).calls == old(self).calls,
+            final(self).rest_eq(old(self), 8),
     //@end
 
     // C02 leaf fact: a caller serial that is already pending is rejected and nothing changes
@@ -258,6 +251,7 @@ impl ConnectionState {
             final(self).events == old(self).events, final(self).objects == old(self).objects,
             final(self).senders == old(self).senders, final(self).receivers == old(self).receivers,
             final(self).bus_listeners == old(self).bus_listeners,
+            final(self).rest_eq(old(self), 9),
     //@end
 
     //@fn broker/src/broker/conn_state.rs ConnectionState::remove_call
@@ -267,6 +261,7 @@ impl ConnectionState {
             final(self).events == old(self).events, final(self).objects == old(self).objects,
             final(self).senders == old(self).senders, final(self).receivers == old(self).receivers,
             final(self).bus_listeners == old(self).bus_listeners,
+            final(self).rest_eq(old(self), 9),
     //@end
 }
 
